@@ -56,3 +56,11 @@ Proof. revert n i; induction l as [|a l IH]; intros [|n] [|i] H; simpl; auto; tr
 
 Lemma nth_In_lt {A} (l : list A) x d : In x l -> exists i, i < length l /\ nth i l d = x.
 Proof. intros H. apply In_nth; auto. Qed.
+
+Lemma NoDup_firstn {A} (l : list A) n : NoDup l -> NoDup (firstn n l).
+Proof.
+  revert n; induction l as [|a l IH]; intros [|n] H; simpl; try constructor.
+  - inversion H; subst. intros Hin. apply H2. clear -Hin. revert n Hin.
+    induction l as [|b l IH]; intros [|n] Hin; simpl in *; try tauto. destruct Hin; eauto.
+  - inversion H; auto.
+Qed.
